@@ -4,7 +4,7 @@
    Values are pairs <<c, e>> = c * 2^e with c an integer (exact).
    OPERAND types describe what the originating QKeras quantizer emits:
       [src |-> "bits" | "relu" | "po2" | "relu_po2" | "ternary" | "binary" | "binary01",
-       bits, int, kn, hasmv, mvk]                        (max_value = 2^mvk for the po2 sources)
+       bits, int, kn, hasmv, mvk, mvm]                   (po2 sources: max_value = mvm * 2^mvk, mvm in {1, 3})
    REPORTED types are what qtools prints for an operator output:
       [mode, po2 |-> BOOLEAN, bits, int, sg, hasmv, mvk]  (max_val_po2 = 2^mvk; mode as in the multiplier table)
    mode 0 (fixed point) denotes two's-complement codes c * 2^-frac with frac = bits - sg - int (negative: step > 1);
@@ -22,10 +22,13 @@ TrailingZeros(n) == IF n = 0 \/ (n % 2) # 0 THEN 0 ELSE 1 + TrailingZeros(n \div
 IsPow2Nat(n) == n > 0 /\ Pow2(Log2Ceil(n)) = n
 
 \* ------------------------------------------------------------ operand value lattices (QKeras semantics, C01 / C03)
-NeedSign(o) == IF o.hasmv /\ o.mvk <= 0 THEN 0 ELSE 1
+\* ceil(log2 max_value) = round(log2 max_value) for mvm in {1, 3}: the clamp max_value is itself quantized to 2^that
+MvCeil(o) == o.mvk + (IF o.mvm = 3 THEN 2 ELSE 0)
+MvLeqOne(o) == o.hasmv /\ (IF o.mvm = 3 THEN o.mvk <= -2 ELSE o.mvk <= 0)
+NeedSign(o) == IF MvLeqOne(o) THEN 0 ELSE 1
 Po2Eff(o) == IF o.src = "po2" THEN o.bits - 1 - NeedSign(o) ELSE o.bits - NeedSign(o)
 Po2MinE(o) == -Pow2(Po2Eff(o))
-Po2MaxE(o) == LET m == Pow2(Po2Eff(o)) - 1 IN IF o.hasmv THEN Min(m, Max(o.mvk, Po2MinE(o))) ELSE m
+Po2MaxE(o) == LET m == Pow2(Po2Eff(o)) - 1 IN IF o.hasmv THEN Min(m, Max(MvCeil(o), Po2MinE(o))) ELSE m
 OperandValues(o) ==
   CASE o.src = "bits" -> {<<c, o.int - (o.bits - o.kn)>> :
                             c \in (IF o.kn = 1 THEN -Pow2(o.bits - 1) ELSE 0) .. (Pow2(o.bits - o.kn) - 1)}
@@ -47,8 +50,8 @@ QT(o) ==    \* [mode, bits, int, sg, po2, hasmv, mvk, bin01 (the qtools object i
   CASE o.src = "bits" -> [mode |-> 0, bits |-> o.bits, int |-> o.int, sg |-> o.kn, po2 |-> FALSE, hasmv |-> FALSE, mvk |-> 0, bin01 |-> FALSE]
     [] o.src = "relu" -> [mode |-> IF o.bits = 1 /\ o.int = 1 THEN 4 ELSE 0, bits |-> o.bits, int |-> o.int, sg |-> 0,
                           po2 |-> FALSE, hasmv |-> FALSE, mvk |-> 0, bin01 |-> FALSE]
-    [] o.src = "po2" -> [mode |-> 1, bits |-> o.bits, int |-> o.bits, sg |-> 1, po2 |-> TRUE, hasmv |-> o.hasmv, mvk |-> o.mvk, bin01 |-> FALSE]
-    [] o.src = "relu_po2" -> [mode |-> 1, bits |-> o.bits, int |-> o.bits, sg |-> 0, po2 |-> TRUE, hasmv |-> o.hasmv, mvk |-> o.mvk, bin01 |-> FALSE]
+    [] o.src = "po2" -> [mode |-> 1, bits |-> o.bits, int |-> o.bits, sg |-> 1, po2 |-> TRUE, hasmv |-> o.hasmv, mvk |-> MvCeil(o), bin01 |-> FALSE]
+    [] o.src = "relu_po2" -> [mode |-> 1, bits |-> o.bits, int |-> o.bits, sg |-> 0, po2 |-> TRUE, hasmv |-> o.hasmv, mvk |-> MvCeil(o), bin01 |-> FALSE]
     [] o.src = "ternary" -> [mode |-> 2, bits |-> 2, int |-> 2, sg |-> 1, po2 |-> FALSE, hasmv |-> FALSE, mvk |-> 0, bin01 |-> FALSE]
     [] o.src = "binary" -> [mode |-> 3, bits |-> 1, int |-> 1, sg |-> 1, po2 |-> FALSE, hasmv |-> FALSE, mvk |-> 0, bin01 |-> FALSE]
     [] o.src = "binary01" -> [mode |-> 4, bits |-> 1, int |-> 1, sg |-> 0, po2 |-> FALSE, hasmv |-> FALSE, mvk |-> 0, bin01 |-> TRUE]
